@@ -155,7 +155,9 @@ func c05Fallback(t *testing.T, o *vOut, ca *vCA) {
 		ctx := context.Background()
 		name := "fb0.example"
 		if err := cfg.ManageSync(ctx, []string{name}); err != nil {
-			t.Fatalf("C05 fallback preparation: %v", err)
+			// "obtains one only when none exists" — and does obtain it then, also with two issuers
+			o.Mon("C05 manage nothing-stored-yet-but-not-obtained", map[string]any{"issuers": 2, "error": err.Error()})
+			return
 		}
 		adv := 61 * 24 * time.Hour
 		time.Sleep(adv)
